@@ -96,7 +96,17 @@ def config_name(root):
 
 
 def run_multi_case(rng, res: CaseResult):
-    if rng.random() < 0.3:
+    pm = True
+    parts_family = rng.random() < 0.2
+    if parts_family:
+        # members = the parts of ONE multi-config file (same task classes, other values), in parameter mode or with results addressed by config name
+        spec, part_roots = S.parts_spec(rng)
+        base = part_roots[0]
+        pm = rng.random() < 0.5
+        res.count('parts_of_one_file_multichains')
+        if not pm:
+            res.count('name_mode_multichains')
+    elif rng.random() < 0.3:
         spec, troots = S.twin_spec(rng)
         base = {'file': 'cfg/top.yaml'}
     else:
@@ -106,8 +116,11 @@ def run_multi_case(rng, res: CaseResult):
     if spec['files'][base['file']].get('multi') and not base.get('part'):
         base['part'] = next(p for p, d in spec['files'][base['file']]['parts'].items() if d.get('main_part'))
     k = rng.randint(2, 5)
-    roots = multi_roots(rng, spec, base, k)
-    refs = [Ref(spec, r) for r in roots]
+    if parts_family:
+        roots, k = part_roots, len(part_roots)
+    else:
+        roots = multi_roots(rng, spec, base, k)
+    refs = [Ref(spec, r, parameter_mode=pm) for r in roots]
     if any(r.error is not None or not r.tasks for r in refs):
         res.count('generator_rejects')
         return
@@ -116,7 +129,7 @@ def run_multi_case(rng, res: CaseResult):
         res.count('generator_rejects')
         return
     # steps
-    steps = [{'op': 'build_multi', 'chain': 'mc', 'roots': roots}]
+    steps = [{'op': 'build_multi', 'chain': 'mc', 'roots': roots, 'parameter_mode': pm}]
     common = set(refs[0].tasks)
     for r in refs[1:]:
         common &= set(r.tasks)
@@ -137,7 +150,7 @@ def run_multi_case(rng, res: CaseResult):
                 steps.append({'op': 'snapshot', 'chain': 'mc', 'member': names[j], 'light': True, 'mi': j})
     # a further chain built later on the MultiChain's task registry (Chain(cfg, shared_tasks=...)), after values were computed
     extra_ri = None
-    if rng.random() < 0.5:
+    if rng.random() < 0.5 and pm:
         extra_ri = rng.randrange(k)
         pos = rng.randint(2, len(steps))
         more = [{'op': 'build', 'chain': 'extra', 'root': roots[extra_ri], 'shared_from': 'mc'}]
@@ -168,7 +181,7 @@ def run_multi_case(rng, res: CaseResult):
     # (a) every member equals the standalone reference
     occurrences = Counter((t['slug'], t['key']) for r_ in refs for t in r_.tasks.values())
     for i, nm in enumerate(names):
-        disc = compare_build(refs[i], {'ok': True, 'snapshot': members[nm]})
+        disc = compare_build(refs[i], {'ok': True, 'snapshot': members[nm]}, pm)
         # identical computations of several members are one shared object: values excluded from persistence may be any member's
         disc = [d for d in disc if not (d['tag'] == 'params' and d['facts'].get('unpersisted') and occurrences[tuple(d['facts']['slugkey'])] > 1)]
         res.count('members_compared')
@@ -180,7 +193,8 @@ def run_multi_case(rng, res: CaseResult):
     entries = []
     for i, nm in enumerate(names):
         for tn, t in refs[i].tasks.items():
-            entries.append((i, tn, t['slug'], t['descriptor'], members[nm]['tasks'][tn]['id'], t['key']))
+            # (with results addressed by config name, every config's tasks are computations of their own)
+            entries.append((i, tn, t['slug'], t['descriptor'] if pm else f'config {nm}', members[nm]['tasks'][tn]['id'], t['key']))
     by_desc = {}
     for e in entries:
         by_desc.setdefault((e[2], e[3]), []).append(e)
